@@ -47,6 +47,7 @@ def run(ctx):
   # location-independent analyses first: an anchored rule that gives up later must not mask them
   schema_navigation(ctx)
   part_state(ctx)
+  zip_names(ctx)
   elements(ctx)
   pitch(ctx)
   conversions(ctx)
@@ -57,6 +58,33 @@ def run(ctx):
   mi = ctx.P.module('musicxml_parser')
   for ci in sorted(mi.all_classes.values(), key=lambda c: c.qualname):
     state.check_instance_state(ctx, ci, 'STATE/per-object', mro=ctx.P.mro(ci)[1:] if hasattr(ctx.P, 'mro') else None)
+
+
+def zip_names(ctx):
+  """Location-independent (".xml and compressed .mxl alike"): zipfile decodes a member name as UTF-8 when the archive sets general
+  purpose bit 11 (0x800) and as cp437 otherwise.  Re-decoding a name (`.encode('437').decode('utf-8')`) is right exactly for the
+  members *without* that flag; applied to a name the archive stored as UTF-8 it mangles it and the score is "not found".  Every
+  re-decoding must therefore lie on a path that tests the member's flag_bits against 0x800."""
+  gs = ctx.func('musicxml_parser:MusicXMLDocument._get_score')
+  fn = gs.node
+  for c in U.calls_in(fn):
+    if not (isinstance(c.func, ast.Attribute) and c.func.attr == 'encode' and c.args and isinstance(c.args[0], ast.Constant) and str(c.args[0].value).lower() in ('437', 'cp437')):
+      continue
+    st = c
+    pm = U.parents(fn)
+    while st is not None and not isinstance(st, ast.stmt):
+      st = pm.get(id(st))
+    pcs = U.path_conditions(fn, st)
+    conds = [U.expand_locals(fn, t, at=st) for t, _p in pcs]
+    flagged = [t for t in conds if 'flag_bits' in norm_text(t)]
+    okf = False
+    for t in flagged:
+      consts = set(U.const_value(x) for x in ast.walk(U.expand_locals(fn, t, at=st)) if U.const_value(x) is not None)
+      okf = okf or 0x800 in consts
+    ctx.ob('CONTAIN/zip-name-flag', gs, c, okf, 'member names are re-decoded only when the UTF-8 flag (0x800) is not set' if okf else
+           '%s re-decodes a member name without testing the entry\'s flag_bits against 0x800 (%s): a name the archive already stored as UTF-8 is mangled, so a score file with a '
+           'non-ASCII name in a UTF-8-flagged .mxl is not found' % (norm_text(c), ' and '.join(('' if p else 'not ') + norm_text(t) for t, p in pcs if not isinstance(t, ast.Constant)) or 'unconditionally'),
+           construct='cp437 names are re-decoded only without the UTF-8 flag', definite=True)
 
 
 # ------------------------------------------------------------------ S1
@@ -357,10 +385,76 @@ def conversions(ctx):
   ctx.ob('CONV/tempo', di, q[0] if q else di.node, ok, 'seconds_per_quarter = 60 / qpm is updated with the tempo' if ok else 'seconds_per_quarter is not updated as 60/qpm where the tempo changes')
 
 
+def keys_by_enumeration(ctx, fi):
+  """Location-independent: <fifths> ranges over the 15 signatures -7..7 and <mode> over major / minor: a finite domain.  The loop
+  that fills key_signatures is followed path by path (sa.pathval); on the paths selected by mode == "major" / "minor" the
+  expression left in <key signature>.key is folded (sa.fold: integer arithmetic, %, //, len, subscripts of literal tables) for
+  each of the 15 values of <fifths> and compared with the tonic's pitch class: 7*f mod 12 for major, 7*f + 9 mod 12 for minor.
+  The first disagreeing signature is reported.  If a path or an expression is outside what is folded: no verdict."""
+  from sa import pathval, fold
+  fn = fi.node
+  loop = None
+  for n in ast.walk(fn):
+    if isinstance(n, ast.For) and isinstance(n.target, ast.Name) and any(
+        isinstance(c, ast.Call) and isinstance(c.func, ast.Attribute) and c.func.attr == 'add' and norm_text(c.func.value).endswith('.key_signatures') for c in ast.walk(n)):
+      loop = n
+  if loop is None:
+    return
+  v = loop.target.id
+  ksv = None
+  body = []
+  for st in loop.body:
+    if isinstance(st, ast.Assign) and isinstance(st.value, ast.Call) and isinstance(st.value.func, ast.Attribute) and st.value.func.attr == 'add' and \
+       norm_text(st.value.func.value).endswith('.key_signatures') and isinstance(st.targets[0], ast.Name) and not st.value.keywords and not st.value.args:
+      ksv = st.targets[0].id
+      continue
+    body.append(st)
+  if ksv is None:
+    return
+  # tables / constants defined before the loop are part of the environment
+  pre = [st for st in fn.body if st.lineno < loop.lineno and isinstance(st, ast.Assign) and len(st.targets) == 1 and isinstance(st.targets[0], ast.Name) and
+         isinstance(st.value, (ast.List, ast.Tuple, ast.Constant, ast.Dict))]
+  try:
+    ps = pathval.paths(pre + body, {})
+  except pathval.PathError:
+    return
+  fd = fold.Folder(ctx.P, ctx.S)
+  mi = fi.module
+  loc = '%s.key' % ksv
+  for mode, shift in (('major', 0), ('minor', 9)):
+    sel = []
+    for conds, out, end in ps:
+      val = None
+      for t, pol in conds:
+        sd = U.eq_sides(t, lambda x: norm_text(x) == '%s.mode' % v, lambda y: isinstance(y, ast.Constant) and isinstance(y.value, str))
+        if sd:
+          val = (sd[1].value == mode) == pol if val is None else (val and ((sd[1].value == mode) == pol))
+      if val:
+        sel.append((conds, out))
+    if len(sel) != 1 or loc not in sel[0][1]:
+      continue
+    expr = sel[0][1][loc]
+    bad = None
+    try:
+      for f in range(-7, 8):
+        e2 = pathval.subst(expr, {'%s.key' % v: ast.Constant(value=f)})
+        got = fd.expr(mi, e2, {})
+        want = (7 * f + shift) % 12
+        if got != want and bad is None:
+          bad = (f, got, want)
+    except Exception:
+      continue
+    ok = bad is None
+    ctx.ob('KEY/tonic-by-signature', fi, loop, ok, 'all 15 signatures give the %s tonic (7*fifths%s mod 12)' % (mode, ' + 9' if shift else '') if ok else
+           'mode %s, <fifths> %d: the reported key is %r, the %s key with that signature has tonic pitch class %d (%s)' % (
+               mode, bad[0], bad[1], mode, bad[2], norm_text(expr)[:120]), construct='%s keys, all 15 signatures' % mode, definite=True)
+
+
 # ------------------------------------------------------------------ S4
 def keys(ctx):
   fi = ctx.func('musicxml_reader:musicxml_to_sequence_proto')
   fn = fi.node
+  keys_by_enumeration(ctx, fi)
   tab = None
   tab_st = None
   for st in U.walk_stmts(fn):
